@@ -5,6 +5,10 @@ itself, a Box of it, a Result/ControlFlow around it): a set of
   ('L',)                        located: an AtLoc (or locator context) wraps it
   ('B', variant, origin_fn)     bare leaf `variant`, created in origin_fn
   ('U', reason, fn)             producer the analysis does not model
+  ('P', n)                      whatever the caller passed as parameter n
+                                (substituted at every call site, so a helper
+                                that may hand its argument back un-located is
+                                judged with the argument's own state)
 Per function a summary R(f) (abstract value of the return place) is computed
 as a least fixpoint over the whole crate.  Wrapper variants (those with a
 Box<Error> source) keep the state of what they wrap.
@@ -82,7 +86,10 @@ class ErrState:
         visiting.add(key)
         out = set()
         if 1 <= local <= f.arg_count:
-            out.add(("U", "parameter", f.path))
+            if f.is_closure:
+                out.add(("U", "parameter", f.path))
+            else:
+                out.add(("P", local))
         for (bb, idx, kind, payload) in f.defs().get(local, []):
             if kind == "call":
                 out |= self._call(f, payload, memo, visiting)
@@ -146,7 +153,7 @@ class ErrState:
             # builtin function pointer: union over address-taken candidates
             out = set()
             for p in self.prog.fnptr_targets(c):
-                out |= self.R.get(p, frozenset())
+                out |= {e for e in self.R.get(p, frozenset()) if e[0] != "P"}
             if not out:
                 out.add(("U", "fn-pointer", f.path))
             return frozenset(out)
@@ -165,7 +172,14 @@ class ErrState:
             return frozenset([("B", sel, f.root_fn().path)])
         if res in self.prog.fns and self.prog.fns[res].full:
             if res in self.R:
-                return self.R[res]
+                out = set()
+                for e in self.R[res]:
+                    if e[0] == "P":
+                        if e[1] - 1 < len(c.args):
+                            out |= self._operand(f, c.args[e[1] - 1], memo, visiting)
+                    else:
+                        out.add(e)
+                return frozenset(out)
             return frozenset()
         for p in PASS_THROUGH:
             if decl == p or res == p:
@@ -205,4 +219,10 @@ class ErrState:
         return {("U", "closure-arg of %s" % c.declared, f.path)}
 
     def summary(self, path):
-        return self.R.get(path, frozenset())
+        out = set()
+        for e in self.R.get(path, frozenset()):
+            if e[0] == "P":
+                out.add(("U", "parameter %d" % e[1], path))
+            else:
+                out.add(e)
+        return frozenset(out)
